@@ -145,6 +145,13 @@ def publish_order(ctx):
         params = [a.arg for a in f.args.args]
         ctx.check(len(c.args) == 2 and dotted(c.args[0]) == tname and dotted(c.args[1]) == params[2], c, "rename(temporary, final)", "rename arguments are %s" % unparse(c))
     ctx.check(len(w[0].args) == 3 and [dotted(a) for a in w[0].args] == [a.arg for a in f.args.args][1:], w[0], "helper forwards (object, final name, write function)")
+    wfp = f.args.args[3].arg if len(f.args.args) > 3 else None
+    direct = [c for c in calls_in(f) if dotted(c.func) == wfp]
+    for c in direct:
+        ctx.bad(c, "the write function is called directly on %s inside the helper: the file appears under its final name while it is being written "
+                "(a kill or a concurrent reader sees a torn file)" % (unparse(c.args[1]) if len(c.args) > 1 else "?"))
+    ctx.check(g.every_path_from([g.entry], g.nodes_of_all(mv)) and g.every_path_from([g.entry], g.nodes_of_all(w)), mv[0],
+              "every path of the helper writes the temporary file and renames it (no shortcut path)", "a path of _concurrency_safe_write skips the temporary file or the rename")
     cw = ctx.repo.func(SB, "concurrency_safe_write")
     gc_ = cfg_of(cw)
     calls = [c for c in calls_in(cw) if dotted(c.func) == cw.args.args[2].arg]
@@ -324,6 +331,29 @@ def code_reader(ctx):
                       "unreadable stored source is not turned into rewrite + miss")
 
 
+def invalidate_order(ctx):
+    """Invalidation is crash-safe: the function's entries are wiped BEFORE the new source is published
+    (a kill in between leaves 'no source' => rewrite + miss, never 'new source + entries of the old code')."""
+    cl = M(ctx, "MemorizedFunc.clear")
+    g = cfg_of(cl)
+    cp = [c for c in calls_in(cl) if call_name(c) == "self.store_backend.clear_path"]
+    wr = [c for c in calls_in(cl) if call_name(c) == "self._write_func_code"]
+    ctx.need(cp and wr, "MemorizedFunc.clear no longer wipes and rewrites")
+    ctx.check(g.every_path_to(g.nodes_of_all(wr), g.nodes_of_all(cp)) and not g.path_exists(g.nodes_of_all(wr), g.nodes_of_all(cp)), wr[0],
+              "the entries are wiped before the new source is stored",
+              "the new source is stored before the old entries are wiped: a kill in between leaves results of the old code that now look valid")
+    clr = S(ctx, "FileSystemStoreBackend.clear_location")
+    gl = cfg_of(clr)
+    rm = [c for c in calls_in(clr) if call_name(c) == "shutil.rmtree"]
+    rs = [c for c in calls_in(clr) if call_name(c) == "rm_subdirs"]
+    for c in rs:
+        conds = [(unparse(t), pol) for (_, t, pol) in gl.conditions_at(gl.nodes_of(c))]
+        ctx.check(conds == [("location == self.location", True)], c, "only the cache root is emptied in place; every other location is removed as a whole",
+                  "rm_subdirs is used under %s: a function directory keeps its func_code.py while its entries go" % conds)
+    for c in rm:
+        ctx.check(dotted(c.args[0]) == clr.args.args[1].arg, c, "the location itself is removed")
+
+
 def delete_tolerant(ctx):
     gi = S(ctx, "FileSystemStoreBackend.get_items")
     n = 0
@@ -485,7 +515,10 @@ def errdisc(ctx):
 def eexist(ctx):
     f = ctx.repo.func(DISK, "mkdirp")
     hs = [h for t in nodes_of_type(f, ast.Try) for h in t.handlers]
-    ctx.need(hs, "mkdirp has no handler")
+    if not hs:
+        ctx.bad(f, "mkdirp no longer tolerates EEXIST: two processes creating the same entry directory race between the existence test and makedirs, and the loser raises FileExistsError",
+                key=DISK + "::mkdirp::EEXIST handler")
+        return
     for h in hs:
         ifs = [s for s in h.body if isinstance(s, ast.If)]
         ok = handler_catches(h, ["OSError"]) and len(ifs) == 1 and unparse(ifs[0].test) in ("%s.errno != errno.EEXIST" % h.name, "not %s.errno == errno.EEXIST" % h.name) and isinstance(ifs[0].body[0], ast.Raise)
@@ -572,6 +605,16 @@ def diff_wipes(ctx):
     wf = M(ctx, "MemorizedFunc._write_func_code")
     st = [c for c in calls_in(wf) if call_name(c) == "self.store_backend.store_cached_func_code"]
     ctx.check(bool(st) and unparse(st[0].args[0]) == "[self.func_id]" and len(st[0].args) == 2, st[0] if st else wf, "_write_func_code stores the source under this function id")
+    for q in ("MemorizedFunc.clear", "MemorizedFunc._check_previous_func_code"):
+        fn = M(ctx, q)
+        for c in [c for c in calls_in(fn) if call_name(c) == "self._write_func_code"]:
+            srcs = []
+            for a_ in c.args[:2]:
+                d = [x for x in nodes_of_type(fn, ast.Assign) if isinstance(x.targets[0], ast.Tuple) and dotted(a_) in [dotted(e) for e in x.targets[0].elts]]
+                srcs.append(dotted(d[0].value) if len(d) == 1 else None)
+            ctx.check(srcs == ["self.func_code_info", "self.func_code_info"], c, "%s stores exactly the source that is compared (self.func_code_info)" % q.split(".")[-1],
+                      "%s stores a source obtained from %s, not the one remembered for this wrapper and compared on later calls: after an edit+reload an older live "
+                      "definition records the new text as its own" % (q.split(".")[-1], srcs))
     efl = ctx.repo.func(MEM, "extract_first_line")
     ctx.check(any(isinstance(r.value, ast.Tuple) for r in nodes_of_type(efl, ast.Return)), efl, "extract_first_line returns (code, first line)")
 
@@ -599,7 +642,21 @@ def fastpath_coherent(ctx):
         if not inserts:
             ctx.ok(c, "writer of the stored source does not populate the fast-path table")
             continue
+        g_ = cfg_of(fn)
         other = False
+        for n in inv:
+            for a in ancestors(n):
+                if isinstance(a, ast.For) and "_FUNCTION_HASHES" in unparse(a.iter):
+                    it_ok = unparse(a.iter) in ("list(_FUNCTION_HASHES)", "tuple(_FUNCTION_HASHES)", "list(_FUNCTION_HASHES.keys())", "_FUNCTION_HASHES.copy()", "list(_FUNCTION_HASHES.items())")
+                    ctx.check(it_ok, a, "the eviction loop runs over the whole table, unconditionally", "the eviction loop iterates `%s`: on some writes of the stored source nothing is evicted" % unparse(a.iter))
+                    ins_nodes = set()
+                    for i_ in inserts:
+                        ins_nodes.update(g_.nodes_of(i_))
+                    ctx.check(g_.every_path_to(ins_nodes, g_.nodes_of(a)), a, "every path that records this function in the table first evicts its namesakes",
+                              "the table insert can be reached without running the eviction loop")
+                    conds = [(unparse(t), pol) for (i2, t, pol) in g_.conditions_at(g_.nodes_of(n)) if in_block(i2, a.body)]
+                    ctx.check(len(conds) == 1 and "is not self.func" in conds[0][0] and "_build_func_identifier" in conds[0][0] and conds[0][1], n,
+                              "evicted: every other function with the same identifier", "eviction is conditioned on %s" % conds)
         for n in inv:
             # must be able to hit entries of *other* functions: clear(), or pop/del inside a loop over the table
             if isinstance(n, ast.Call) and call_name(n) == "_FUNCTION_HASHES.clear":
@@ -658,6 +715,13 @@ def fresh_source(ctx):
             conds = g.conditions_at(g.nodes_of(c))
             ctx.check(any(unparse(t) == "not os.path.exists(source_file)" and pol for (_, t, pol) in conds), c, "%s is used only when the source file does not exist" % call_name(c),
                       "%s (linecache-backed, stale after an edit) is used for existing files" % call_name(c))
+    for h in [h for t in nodes_of_type(f, ast.Try) for h in t.handlers]:
+        for r in [n for s_ in h.body for n in walk_local(s_) if isinstance(n, ast.Return)]:
+            first = r.value.elts[0] if isinstance(r.value, ast.Tuple) else r.value
+            txt = unparse(first)
+            if "__code__" in txt:
+                ctx.check(txt in ("str(func.__code__.__hash__())", "str(hash(func.__code__))"), r, "source-less functions are fingerprinted by the hash of the whole code object (constants and names included)",
+                          "source-less functions are fingerprinted by %s, which does not cover the whole code object: a redefinition that only changes constants is not detected" % txt)
     fl = [a for a in nodes_of_type(f, ast.Assign) if "first_line" in stores_to(a)]
     ctx.check(bool(fl) and unparse(fl[0].value) == "code.co_firstlineno", fl[0] if fl else f, "the block is taken from the function's current first line")
 
@@ -807,6 +871,10 @@ def delete_all(ctx):
         conds = [a for a in ancestors(st) if isinstance(a, ast.If) and in_block(a, lp.body)]
         ctx.check(not conds, cl[0], "deletion is unconditional")
         ctx.check(not any(isinstance(n, (ast.Break, ast.Continue, ast.Return)) for s in lp.body for n in walk_local(s)), lp, "the loop never stops early")
+        per_item = [a for a in ancestors(cl[0]) if isinstance(a, ast.Try) and in_block(cl[0], a.body) and in_block(a, lp.body)
+                    and any(handler_catches(h, ["OSError"]) and not any(isinstance(n, ast.Raise) for s in h.body for n in walk_local(s)) for h in a.handlers)]
+        ctx.check(bool(per_item), cl[0], "an OSError while deleting one item is tolerated per item (the remaining items are still deleted)",
+                  "the OSError of one deletion is not handled inside the loop: the first vanished/stale item stops the eviction and the limits are not met")
 
 
 def inventory(ctx):
